@@ -12,24 +12,37 @@ Require Import LD.Isolation.
 """
 
 
-def make_example(i, shape='dict'):
-    """nested example; the top-level container is a dict, a tuple (immutable only at the top) or a list"""
+def make_example(i, shape='dict', arrays=True):
+    """nested example; the top-level container is a dict, a tuple (immutable only at the top) or a list; unless the source is a JSON
+    file it also carries buffer payloads (a numpy array, a bytearray) that a consumer may write to in place"""
+    inner = {'l': [{'x': [i, 0]}]}
+    if arrays:
+        inner['arr'] = np.zeros(3, dtype=np.int64)
+        inner['raw'] = bytearray(2)
     if shape == 'dict':
-        return {'id': i, 'ver': [0], 'deep': {'l': [{'x': [i, 0]}]}}
-    body = [i, [0], {'l': [{'x': [i, 0]}]}]
+        return {'id': i, 'ver': [0], 'deep': inner}
+    body = [i, [0], inner]
     return tuple(body) if shape == 'tuple' else body
 
 
 def content(ex):
     """the model's content of an example: its version marker (all nested markers must agree)"""
     if isinstance(ex, dict):
-        a, b = ex['ver'][0], ex['deep']['l'][0]['x'][1]
+        a, inner = ex['ver'][0], ex['deep']
     else:
-        a, b = ex[1][0], ex[2]['l'][0]['x'][1]
-    return a if a == b else -1000 - a
+        a, inner = ex[1][0], ex[2]
+    marks = [inner['l'][0]['x'][1]]
+    if 'arr' in inner:
+        marks += [int(inner['arr'][1]), int(inner['raw'][0])]
+    return a if all(m == a for m in marks) else -1000 - a
 
 
 def mutate(ex, k):
+    inner = ex['deep'] if isinstance(ex, dict) else ex[2]
+    if 'arr' in inner:
+        inner['arr'][1] = k            # in-place writes into buffers (what `*=`, `.fill()` or a filter working in place do)
+        inner['arr'][2] += 1
+        inner['raw'][0] = k
     if isinstance(ex, dict):
         ex['ver'][0] = k
         ex['deep']['l'][0]['x'][1] = k
@@ -45,7 +58,7 @@ def mutate(ex, k):
 
 
 def build(ld, kind, n, keyed, tmp, shape='dict'):
-    originals = [make_example(i, shape) for i in range(n)]
+    originals = [make_example(i, shape, arrays=kind != 'jsonfile') for i in range(n)]
     keys = [gen_a.KEYS[i] for i in range(n)]
     container = dict(zip(keys, originals)) if keyed else list(originals)
     with warnings.catch_warnings():
@@ -173,7 +186,7 @@ def coq_lcase(n, ops, outs):
                     addr = heap
                     heap += 1
                 handle_addr.append(addr)
-                couts.append(f'LVal nat {addr} {o[1]}')
+                couts.append(f'LVal nat {addr} {o[1] if o[1] >= 0 else 999983}')       # torn content: well-typed, matches nothing
             else:
                 couts.append('LNone nat')
         else:
@@ -191,7 +204,7 @@ def coq_case(kind, n, ops, outs):
         if op[0] == 'read':
             cops.append(f'IRead nat {op[2]}')
             if o[0] == 'val':
-                couts.append(f'IVal nat {n + nh} {o[1]}')
+                couts.append(f'IVal nat {n + nh} {o[1] if o[1] >= 0 else 999983}')
                 nh += 1
             else:
                 couts.append('INone nat')
